@@ -21,7 +21,8 @@ RULE = (
     "distinct = (stream, partition, variant)"
 )
 ASSUMPTIONS = [
-    "all samples of a task share one task start (absolute_time - time_period constant), each sample may come from its own client "
+    "in the base variants all samples of a task share one task start (absolute_time - time_period constant); a further variant starts the "
+    "clients of the odd-numbered samples 0.1 s later and delivers each batch in ascending and in descending sample order; each sample may come from its own client "
     "(so every arrival order is possible); timestamps on the grid listed in coverage.grid",
     "for histories whose arrival order contradicts the timestamps the statement does not fix the elapsed time of a value: either the "
     "value's own timestamp or the latest timestamp seen so far is accepted as denominator, and samples that arrived earlier but "
@@ -77,9 +78,16 @@ def env():
     return _ENV
 
 
-def mk(task, idx, t, stype, ops, unit="docs", thr=None):
+SKEW = 0.1  # in the skewed variant the clients of the odd-numbered samples started the task this much later than the others
+
+
+def skew_of(skew, i):
+    return SKEW if skew and i % 2 else 0.0
+
+
+def mk(task, idx, t, stype, ops, unit="docs", thr=None, started=0.0):
     d = env()["driver"]
-    return d.Sample(idx, START + t, 50.0 + t, 50.0, task, stype, None, 0.0, 0.0, 0.0, thr, ops, unit, t, None)
+    return d.Sample(idx, START + t, 50.0 + t, 50.0, task, stype, None, 0.0, 0.0, 0.0, thr, ops, unit, t - started, None)
 
 
 def decode(n):
@@ -99,7 +107,13 @@ def pt_value(mode, i):
     return 7.25 + i
 
 
-def run_history(times, types, batches, other_task, passthrough=False):
+def zero_set(mode, types):
+    """samples of failed requests (0 operations): none | every normal-type sample | the last sample | every sample"""
+    n = len(types)
+    return {None: set(), "normal": {i for i in range(n) if types[i]}, "last": {n - 1}, "all": set(range(n))}[mode]
+
+
+def run_history(times, types, batches, other_task, passthrough=False, skew=False, rev=False, zeros=None):
     """returns list of (call index, tuples for task A, tuples for task B)"""
     e = env()
     calc = e["driver"].ThroughputCalculator()
@@ -107,7 +121,7 @@ def run_history(times, types, batches, other_task, passthrough=False):
     k = 0
     for bi, batch in enumerate(batches):
         samples = [
-            mk(e["task_a"], i, times[i], e["N"] if types[i] else e["W"], BASE**i, "docs", pt_value(passthrough, i)) for i in batch
+            mk(e["task_a"], i, times[i], e["N"] if types[i] else e["W"], 0 if i in zero_set(zeros, types) else BASE**i, "docs", pt_value(passthrough, i), skew_of(skew, i)) for i in (reversed(batch) if rev else batch)
         ]
         r = calc.calculate(samples)
         out.append((bi, r.get(e["task_a"], []), r.get(e["task_b"], []), set(r.keys())))
@@ -119,10 +133,15 @@ def run_history(times, types, batches, other_task, passthrough=False):
     return out
 
 
-def oracle(times, types, batches, outs, other_task, passthrough):
+def oracle(times, types, batches, outs, other_task, passthrough, skew=False, rev=False, zeros=None):
     """returns (clause, message) or None"""
     e = env()
     n = len(times)
+    # the task started when the client of its earliest sample started it: earliest in time within the first batch (first arrived among equals)
+    zs = zero_set(zeros, types)
+    arrival = list(reversed(batches[0])) if rev else list(batches[0])
+    first = min(arrival, key=lambda i: (times[i], arrival.index(i)))
+    task_start = skew_of(skew, first)
     flat = [i for b in batches for i in b]
     in_order = all(times[a] <= times[b] for a, b in zip(flat, flat[1:])) and all(
         (times[a], a) <= (times[b], b) for a, b in zip(flat, flat[1:])
@@ -180,7 +199,7 @@ def oracle(times, types, batches, outs, other_task, passthrough):
             if st == e["N"]:
                 seen_normal_value = True
             # elapsed time = the latest sample time seen so far: a late sample (older than an earlier batch) never shrinks it
-            cands = [max(t, prev_batches_max)]
+            cands = [max(t, prev_batches_max) - task_start]
             verdict = None
             for d in cands:
                 nn = val * d
@@ -196,7 +215,7 @@ def oracle(times, types, batches, outs, other_task, passthrough):
                         bad = ("double-count", f"sample {i} (t={times[i]}) counted {dg} times in the value at t={t}")
                     elif dg == 1 and i not in delivered:
                         bad = ("phantom-sample", f"sample {i} counted before it was delivered")
-                    elif dg == 0 and i in delivered and times[i] < t - 1e-9:
+                    elif dg == 0 and i in delivered and times[i] < t - 1e-9 and i not in zs:
                         bad = ("lost", f"sample {i} (t={times[i]}) delivered but missing from the value at t={t}")
                     elif dg == 1 and in_order and times[i] > t + 1e-9:
                         bad = ("counted-early", f"sample {i} (t={times[i]}) counted in the value at t={t}")
@@ -204,7 +223,7 @@ def oracle(times, types, batches, outs, other_task, passthrough):
                         break
                 if bad is None and any(digits[n:]):
                     bad = ("phantom-sample", f"count {ni} exceeds all samples")
-                if bad is None and not any(digits[i] for i in range(n) if abs(times[i] - t) < 1e-9):
+                if bad is None and not any(digits[i] or i in zs for i in range(n) if abs(times[i] - t) < 1e-9):
                     bad = ("lost", f"no sample at t={t} is part of the value at t={t}")
                 if bad is None and ni < last_n:
                     bad = ("non-monotone", f"operation count fell from {last_n} to {ni}")
@@ -223,10 +242,10 @@ def oracle(times, types, batches, outs, other_task, passthrough):
     return None
 
 
-def check_history(times, types, part_idx, other_task, passthrough, res):
+def check_history(times, types, part_idx, other_task, passthrough, res, skew=False, rev=False, zeros=None):
     batches = partitions_of(len(times))[part_idx]
-    outs = run_history(times, types, batches, other_task, passthrough)
-    v = oracle(times, types, batches, outs, other_task, passthrough)
+    outs = run_history(times, types, batches, other_task, passthrough, skew, rev, zeros)
+    v = oracle(times, types, batches, outs, other_task, passthrough, skew, rev, zeros)
     ntup = sum(len(o[1]) for o in outs)
     res.case(
         case_repr={
@@ -235,11 +254,14 @@ def check_history(times, types, part_idx, other_task, passthrough, res):
             "batches": batches,
             "with_second_task": other_task,
             "runner_throughput": passthrough,
+            "clients_started_at_different_times": skew,
+            "failed_requests_with_0_operations": zeros,
+            "arrival_order_within_a_batch": "descending sample number" if rev else "ascending sample number",
             "values": [[round(x[0] - START, 3), str(x[2]), round(x[3], 4)] for o in outs for x in o[1]],
         }
         if res.sample_now(50021)
         else None,
-        nontrivial_key=(times, types, part_idx, other_task, passthrough) if len(times) > 1 else None,
+        nontrivial_key=(times, types, part_idx, other_task, passthrough, skew, rev, zeros) if len(times) > 1 else None,
         outcome_key=(ntup, tuple(round(x[3], 6) for o in outs for x in o[1])),
     )
     res.states += len(outs) + 1
@@ -248,10 +270,10 @@ def check_history(times, types, part_idx, other_task, passthrough, res):
         flat = [i for b in batches for i in b]
         order = "in-order" if all((times[a], a) <= (times[b], b) for a, b in zip(flat, flat[1:])) else "out-of-order"
         res.violation(
-            f"throughput:{v[0]}:{order}" + (":second-task" if other_task and v[0] in ("phantom-values",) else ""),
+            f"throughput:{v[0]}:{order}" + (":second-task" if other_task and v[0] in ("phantom-values",) else "") + (":skewed-starts" if skew else "") + (":failed-requests" if zeros else ""),
             f"times={list(times)} normal={list(types)} batches={batches} second_task={other_task} runner_throughput={passthrough}: {v[1]}; "
             f"values={[[round(x[0] - START, 3), str(x[2]), x[3]] for o in outs for x in o[1]]}",
-            {"times": list(times), "types": list(types), "part": part_idx, "other": other_task, "passthrough": passthrough},
+            {"times": list(times), "types": list(types), "part": part_idx, "other": other_task, "passthrough": passthrough, "skew": skew, "rev": rev, "zeros": zeros},
         )
 
 
@@ -260,6 +282,7 @@ def _shard(arg):
 
     logging.disable(logging.CRITICAL)
     grid, n, combos = arg
+    quick_small = len(grid) > 6  # thorough tier: failed-request variants for every stream length
     res = Result()
     nparts = len(partitions_of(n))
     for times in combos:
@@ -267,6 +290,12 @@ def _shard(arg):
             for p in range(nparts):
                 check_history(times, types, p, False, False, res)
                 check_history(times, types, p, True, False, res)
+                if len(times) > 1:
+                    check_history(times, types, p, False, False, res, skew=True)
+                    check_history(times, types, p, False, False, res, skew=True, rev=True)
+                if quick_small or len(times) <= 3:
+                    for zm in ("normal", "last", "all"):
+                        check_history(times, types, p, False, False, res, zeros=zm)
         # runner-supplied throughput: types all-normal and one mixed assignment
         for types in ((1,) * n, tuple(i % 2 for i in range(n))):
             for p in range(nparts):
@@ -296,5 +325,5 @@ def replay(data):
 
     logging.disable(logging.CRITICAL)
     res = Result()
-    check_history(tuple(data["times"]), tuple(data["types"]), data["part"], data["other"], data["passthrough"], res)
+    check_history(tuple(data["times"]), tuple(data["types"]), data["part"], data["other"], data["passthrough"], res, skew=bool(data.get("skew")), rev=bool(data.get("rev")), zeros=data.get("zeros"))
     return [v for lst in res.violations.values() for v in lst]
